@@ -59,6 +59,10 @@ def run(F, rep, tier):
     c09.annotation_before_binder(F, rep)
     import c12
     c12.chained_namespace(F, rep, "ANNOTATION-RESOLVES")
+    # parsing an annotation leaves the parser as it found it (newline mode restored): what follows parses the same with or without it
+    import core
+    import c14
+    core.borrow(rep, c14.newline_flag, lambda o: o["rule"] == "NEWLINE-FLAG" and "parse_type" in o["key"], F)
     erased_return_type(F, rep)
     checker_annotation_blind(F, rep)
     annotation_is_a_fresh_instance(F, rep)
